@@ -30,8 +30,11 @@ def parse_act(tok):
     if len(p) == 1 and k in ("park", "parkn", "pause", "swap", "end", "enter", "leave", "leavex"):
         # leavex: the callback of install_queue_and_call throws; the statement does not care how the block is left
         return ({"swap": "pause", "leavex": "leave"}.get(k, k), None, False, [], None)
-    if len(p) == 2 and k in ("start", "call", "join") and p[1].isdigit() and len(p[1]) <= 6:
+    if len(p) == 2 and k in ("start", "call", "join", "gnext") and p[1].isdigit() and len(p[1]) <= 6:
+        # gnext: synchronous / future / callback access to a generator (the body is resumed directly, under a queue)
         return (k, None, False, [], int(p[1]))
+    if len(p) == 1 and k == "gyield":
+        return (k, None, False, [], None)
     return None
 
 
@@ -46,7 +49,8 @@ class TraceChecker:
         self.msgs = []
         self.scripts = {}
         self.pc = {}
-        self.status = {}      # cid -> fresh|queued|direct|running|parked|waiting|stacked|done
+        self.status = {}      # cid -> fresh|queued|direct|running|parked|waiting|stacked|yielded|done
+        self.isgen = set()    # coroutines that are generator bodies (first activated by an access)
         self.waiting_for = {}  # cid -> child it awaits
         self.starter = {}
         self.queue = []       # made ready (not by direct transfer), not yet resumed, oldest first
@@ -69,6 +73,7 @@ class TraceChecker:
         self.maxdepth = 0
         self.queued_resumes = 0
         self.nested = 0
+        self.gen_accesses = 0
 
     def flag(self, cat, text):
         self.msgs.append("%s: %s" % (cat, text))
@@ -220,6 +225,27 @@ class TraceChecker:
                 self.nested += 1
             else:
                 self.must_continue = (c, "start of a coroutine that already exists is a no-op")
+        elif kind == "gnext":
+            # synchronous access to a generator whose body has not started / is suspended in co_yield: the body runs now, on the
+            # accessor's stack (the accessor has not suspended: it is blocked in the access like in a nested start())
+            if self.st(d) in ("fresh", "yielded"):
+                self.isgen.add(d)
+                self.status[d] = "direct"
+                self.status[c] = "stacked"
+                self.nest.append(c)
+                self.runner = None
+                self.nested += 1
+                self.gen_accesses += 1
+            else:
+                self.must_continue = (c, "access to a generator that is busy / finished / not a generator is a no-op")
+        elif kind == "gyield":
+            if c in self.isgen:
+                # co_yield answered to a synchronous access: the body is suspended, control is back in the accessor
+                self.status[c] = "yielded"
+                self.runner = None
+                self.returned = True
+            else:
+                self.must_continue = (c, "no-op")
         elif kind == "call":
             if self.st(d) == "fresh":
                 self.status[d] = "direct"
@@ -274,6 +300,16 @@ class TraceChecker:
                 self.status[d] = "direct"
                 if kind == "start":
                     self.starter[d] = -1
+                if self.blocks:
+                    self.nest.append("main")
+        elif kind == "gnext":
+            # ordinary code reads a generator: the body runs in coroutine mode (a queue is installed for the access when none
+            # is); what it makes ready runs after the body has suspended/finished (before the access returns when the access
+            # installed the queue, at the end of the enclosing block otherwise)
+            if self.st(d) in ("fresh", "yielded"):
+                self.isgen.add(d)
+                self.status[d] = "direct"
+                self.gen_accesses += 1
                 if self.blocks:
                     self.nest.append("main")
         elif kind == "enter":
@@ -385,7 +421,7 @@ def check_trace(case, out):
                 t.flag("drain", "%s handle(s) left in the thread's ready queue at the end" % flags.get("q"))
             if t.jobs or any(s == "posted" for s in t.status.values()):
                 t.flag("once", "coroutine(s) handed to another thread were never resumed there: %s" % t.jobs)
-            susp = sum(1 for s in t.status.values() if s in ("parked", "waiting", "pparked"))
+            susp = sum(1 for s in t.status.values() if s in ("parked", "waiting", "pparked", "yielded"))
             if flags.get("susp") != str(susp):
                 t.flag("drain", "%s coroutines alive at the end, %d are suspended on something" % (flags.get("susp"), susp))
             res = [int(x) for x in flags.get("res", "").split(",") if x.isdigit()]
@@ -533,7 +569,60 @@ class ExecSuite(Suite):
                 lines += lines_extra
             lines.append("m " + mline)
         lines.append("end")
+        if not lines_extra and rng.random() < 0.3:
+            lines = self.add_generators(rng, lines, n)
         return {"id": 0, "lines": lines}
+
+    def add_generators(self, rng, lines, n):
+        """adds 1-2 generators (ids >= n, so that the random wakes of the program never target them) to a finished program: their
+        bodies make coroutines of the program ready between co_yields, ordinary code and/or coroutines read them synchronously
+        (`gnext`). A synchronous access blocks its thread until the body yields, so a body that is read from inside coroutine mode
+        (by a coroutine, or by ordinary code inside an install_queue_and_call block) must not suspend on anything but co_yield:
+        such bodies only drop suspend points; a body read by ordinary code outside coroutine mode only (where the access installs
+        the queue and drains it) may also pause and co_await suspend points."""
+        first_m = next((i for i, l in enumerate(lines) if l.startswith("m ")), len(lines) - 1)
+        scripts, mains = lines[1:first_m], lines[first_m:-1]
+        for g in range(n, n + rng.choice([1, 1, 2])):
+            outside_only = rng.random() < 0.5
+            body = []
+            for _ in range(rng.randint(1, 7)):
+                r = rng.random()
+                ids = ",".join(str(rng.randrange(n)) for _ in range(rng.choice([1, 1, 2, 3])))
+                if r < 0.40:
+                    body.append("%s:%s:%s" % (rng.choice(["wake", "wake", "gather"]), "d", ids))
+                elif r < 0.50:
+                    body.append("wake:%s:%s" % (rng.choice("rxp"), ids))
+                elif r < 0.80:
+                    body.append("gyield")
+                elif r < 0.84:
+                    body.append("fwait")
+                elif outside_only:
+                    body.append(rng.choice(["pause", "pause", "swap", "wake:a:" + ids, "gather:a:" + ids]))
+                else:
+                    body.append("gyield")
+            if rng.random() < 0.6:
+                body.append("end")
+            scripts += ["a %d %s" % (g, a) for a in body]
+            # accesses by ordinary code
+            for _ in range(rng.randint(1, 5)):
+                depth, ok = 0, []
+                for i, l in enumerate(mains + [""]):
+                    if depth == 0 or not outside_only:
+                        ok.append(i)
+                    if l == "m enter":
+                        depth += 1
+                    elif l in ("m leave", "m leavex") and depth:
+                        depth -= 1
+                if ok:
+                    mains.insert(rng.choice(ok), "m gnext:%d" % g)
+            # accesses by coroutines of the program (and by the other generator's body)
+            if not outside_only:
+                for _ in range(rng.randint(0, 3)):
+                    scripts.insert(rng.randint(0, len(scripts)), "a %d gnext:%d" % (rng.randrange(n + 1) if rng.random() < 0.9 else g, g))
+            if rng.random() < 0.3:
+                # nothing can make a generator body ready: a wake that names it is a no-op
+                mains.insert(rng.randint(0, len(mains)), "m wake:d:%d,%d" % (g, rng.randrange(n)))
+        return [lines[0]] + scripts + mains + [lines[-1]]
 
     def gen_template(self, rng):
         """structured programs: round-robin rings, wake chains, spawn trees"""
@@ -616,7 +705,7 @@ class ExecSuite(Suite):
 
     def stats(self, cases, outs):
         acts, shapes, vias = {}, {}, {}
-        ncoro, nevents, maxdepth, queued, nested, blocks, jobs = [], 0, 0, 0, 0, 0, 0
+        ncoro, nevents, maxdepth, queued, nested, blocks, jobs, gacc = [], 0, 0, 0, 0, 0, 0, 0
         for c in cases:
             hdr = c["lines"][0].split()
             vias[hdr[3] if len(hdr) > 3 else "promise"] = vias.get(hdr[3] if len(hdr) > 3 else "promise", 0) + 1
@@ -642,6 +731,7 @@ class ExecSuite(Suite):
                 queued += t.queued_resumes
                 nested += t.nested
                 jobs += t.job_runs
+                gacc += t.gen_accesses
             except Exception:
                 pass
         hist = {}
@@ -652,6 +742,7 @@ class ExecSuite(Suite):
                 "acts_executed": nevents, "resumptions_from_ready_queue": queued, "nested_starts_in_coroutine_mode": nested,
                 "install_blocks_entered": blocks, "max_nesting_depth": maxdepth,
                 "jobs_run_by_other_threads": jobs,
+                "generator_accesses_that_resumed_the_body": gacc,
                 "spellings": {"async::start(promise) for fresh targets with id % 3 == 1": "in every wake/detach",
                               "start = async::start(), startc = async::operator(), spawn = coro_queue::initial_awaiter": "see acts",
                               "swap = coro_queue::swap_coroutine + resume_handle": "see acts"}}
@@ -666,7 +757,7 @@ class C05(Spec):
     level_text = ("Lean 4 theorems over an open executable model of coro_queue/suspend_point/async scheduling on one thread: one step "
                   "= one act (wake discard/await, park, pause, detach, start, co_await async, future await, co_return, "
                   "install_queue_and_call enter/leave, parallel()/parallel_resume()/thread-pool hand-over to another thread and the "
-                  "job that thread runs) by whoever runs; no-preempt, FIFO (enq = deq ++ ready), exactly-once, pause "
+                  "job that thread runs, synchronous/future/callback access to a generator and its co_yield) by whoever runs; no-preempt, FIFO (enq = deq ++ ready), exactly-once, pause "
                   "round-robin, no re-entry, full drain proved for every act list, i.e. every program, any number of coroutines; the "
                   "model is tied to the headers by running 6k/200k generated programs through real cocls::async coroutines and the "
                   "model and diffing the complete event traces; a trace oracle evaluates the statement on the implementation's trace")
@@ -682,8 +773,11 @@ class C05(Spec):
                    "while the thread that handed the work over is outside every activation (one legal schedule; concurrent "
                    "activations on several threads share no executor state: the ready queue is thread-local)",
                    "a coroutine handle is resumed only through the library (no raw h.resume() of a handle that is queued elsewhere)",
-                   "coroutine bodies run in coroutine mode (they are entered through start/detach/suspend points, never by a raw "
-                   "resume outside an installed queue)",
+                   "coroutine bodies run in coroutine mode (they are entered through start/detach/suspend points/generator accesses, "
+                   "never by a raw resume outside an installed queue)",
+                   "a generator that is read synchronously from inside coroutine mode (by a coroutine, or by ordinary code inside an "
+                   "install_queue_and_call block) suspends on nothing but co_yield: next_sync() blocks its thread until the body "
+                   "yields (generated programs respect this; the model itself is total)",
                    "co_await of a suspend point that contains the awaiting coroutine's own handle is outside the quantifier"]
 
     def suites(self):
